@@ -3,7 +3,7 @@ use crate::ber::{self, Enc, Node, CTX, UNIV};
 use crate::filter_ref::{self as fr, Filter};
 use crate::gen;
 use crate::lanes::c15;
-use crate::msg::{resp_node, Res, Resp};
+use crate::msg::{resp_node, Req, Res, Resp};
 use crate::prng::{fnv, Rng};
 use crate::report::{case_rng, guarded, par_cases, Ctx, Report};
 use crate::world::ctls_out;
@@ -643,4 +643,91 @@ pub fn replay(ctx: &Ctx, v: &Value) -> Report {
     }
     let _ = CTX;
     rep
+}
+
+// ---------------- extended operations through a connection ----------------
+
+/// The typed extended requests sent through a connection, answered with every legal shape of an
+/// ExtendedResponse (responseName present or absent, with or without a referral in front, random
+/// legal length forms): the typed response parsed from what the operation returns equals what the
+/// server encoded.
+pub fn exops_through_connection(ctx: &Ctx) -> Report {
+    use crate::world::{connect, runtime};
+    let n = ctx.n(6_000, 3_000_000);
+    par_cases(ctx, "exops_through_connection", n, ctx.secs(10, 200), |i, rng, rep| {
+        let kind = rng.below(3);
+        let with_name = rng.bool();
+        let with_refs = rng.chance(1, 4);
+        let slen = 1 + rng.usize(24);
+        let secret = rng.ustring(slen);
+        let rt = runtime(rng.next());
+        let sec2 = secret.clone();
+        let mut srng = rng.fork();
+        let (got, seen_oid) = rt.block_on(async move {
+            let c = connect();
+            let mut ldap = c.ldap;
+            let mut server = c.server;
+            let srv = tokio::spawn(async move {
+                let mut oid = String::new();
+                if let Some(w) = server.request().await {
+                    if let Ok(m) = w.msg {
+                        if let Req::Extended { name, .. } = &m.op {
+                            oid = String::from_utf8_lossy(name).into_owned();
+                        }
+                        let value = match kind {
+                            1 => ber::encode_min(&ber::seq(vec![ber::ctx_prim(0, sec2.as_bytes())])),
+                            _ => sec2.as_bytes().to_vec(),
+                        };
+                        let res = Res { rc: 0, matched: String::new(), text: "t:exop".into(), refs: if with_refs { Some(vec!["ldap://elsewhere/".into()]) } else { None } };
+                        let r = Resp::Extended { res, name: if with_name { Some(oid.clone()) } else { None }, value: Some(value) };
+                        server.send(&Enc::random(&mut srng).to_vec(&resp_node(m.id, &r, None)));
+                    }
+                }
+                server.wait_closed().await;
+                oid
+            });
+            let r = match kind {
+                0 => crate::world::watchdog(ldap.extended(WhoAmI)).await,
+                1 => crate::world::watchdog(ldap.extended(PasswordModify { user_id: Some("uid=x"), old_pass: None, new_pass: None })).await,
+                _ => crate::world::watchdog(ldap.extended(StartTxn)).await,
+            };
+            let got = match r {
+                Ok(Ok(res)) => {
+                    let ex = res.0;
+                    let parsed = guarded(|| match kind {
+                        0 => ex.parse::<WhoAmIResp>().authzid,
+                        1 => ex.parse::<PasswordModifyResp>().gen_pass,
+                        _ => ex.parse::<StartTxnResp>().txn_id,
+                    });
+                    match parsed {
+                        Ok(s) => format!("Ok:{}", s),
+                        Err(p) => format!("parse-panic:{}", p.site()),
+                    }
+                }
+                Ok(Err(e)) => format!("Err({})", crate::world::err_class(&e)),
+                Err(()) => "Hung".into(),
+            };
+            drop(ldap);
+            let oid = srv.await.unwrap_or_default();
+            let _ = c.driver.await;
+            (got, oid)
+        });
+        let what = ["WhoAmI", "PasswordModify", "StartTxn"][kind as usize];
+        let replay = json!({"lane":"exops_through_connection","case":i});
+        let want_oid = ["1.3.6.1.4.1.4203.1.11.3", "1.3.6.1.4.1.4203.1.11.1", "1.3.6.1.1.21.1"][kind as usize];
+        if seen_oid != want_oid {
+            viol(rep, what, "request-oid", format!("server saw {:?}", seen_oid), &replay);
+        }
+        if got != format!("Ok:{}", secret) {
+            viol(
+                rep,
+                &format!("{}Resp", what),
+                if with_name { "value-lost-or-changed:response-with-name-and-value" } else { "value-lost-or-changed:response-with-value-only" },
+                format!("server encoded {:?} (responseName {}, referral {}); the caller parsed {:?}", secret, with_name, with_refs, got),
+                &replay,
+            );
+        }
+        rep.count(&format!("exop_{}_{}", what, if with_name { "name+value" } else { "value-only" }), 1);
+        rep.case(Some(fnv(format!("{}{}{}{}", kind, with_name, with_refs, secret.len()).as_bytes())));
+    })
 }
